@@ -102,3 +102,69 @@ func vpH_C05_oversize() {
 	vpAssert(rc.pos <= len(in), "C05.oversize-reads-bounded")
 	vpReach("C05.oversize.end")
 }
+
+// two packets, the first one kept while the second is read: a delivered packet stays what it was
+func vpH_C05_two() {
+	secret := []byte("k")
+	sender := newVPConn(nil)
+	sc := newCrypter(secret, sender, false)
+	var bodies [][]byte
+	for i := 0; i < 2; i++ {
+		msg := vpStrN(vpInt(0, 2))
+		vpAssume(vpIsASCII(msg))
+		body := append([]byte{0, byte(len(msg)), 0, 0, 1}, msg...)
+		bodies = append(bodies, body)
+		b := make([]byte, len(body))
+		copy(b, body)
+		h := &Header{Version: Version{MajorVersion: 0xc}, Type: Accounting, SeqNo: SequenceNumber(2*i + 1), SessionID: SessionID(vpU32()), Flags: HeaderFlag(vpU8())}
+		_, err := sc.write(&Packet{Header: h, Body: b})
+		vpAssert(err == nil, "C05.two.write-ok")
+	}
+	var stream []byte
+	for _, w := range sender.out {
+		stream = append(stream, w...)
+	}
+	rc := newVPConn(stream)
+	if vpBool() {
+		// deliver in two reads split at a symbolic offset
+		rc.whole = []int{vpIntC(1, len(stream)-1), len(stream)}
+	}
+	r := newCrypter(secret, rc, false)
+	p1, err1 := r.read()
+	p2, err2 := r.read()
+	vpAssert(err1 == nil && err2 == nil, "C05.two.both-delivered")
+	if err1 != nil || err2 != nil {
+		return
+	}
+	vpSameStrC(string(p1.Body), string(bodies[0]), "C05.two.first-packet-intact-after-second-read")
+	vpSameStrC(string(p2.Body), string(bodies[1]), "C05.two.second-packet")
+	vpAssert(p1.Header.SeqNo == 1 && p2.Header.SeqNo == 3, "C05.two.order")
+	vpReach("C05.two.end")
+}
+
+// a stream that stalls past the read deadline in the middle of a packet and then goes on: the
+// stall is an error for the packet being read, the connection is closed, nothing is re-framed
+func vpH_C05_stall_resume() {
+	_, in := vpStream(2)
+	conn := newVPConn(in)
+	conn.cut = vpIntC(0, len(in)-1)
+	conn.cutStall = true
+	conn.resume = true
+	conn.maxReads = 12
+	w := newVPWorld(conn)
+	w.mode = vpReplyNoRestart
+	s := &Server{loggerProvider: &vpLogger{}}
+	s.handle(newVPCtx(), newCrypter([]byte("k"), conn, false), &vpHandler{w: w, id: 0})
+	vpAssert(conn.closes == 1, "C05.stall.connection-closed")
+	vpAssert(conn.readsAfterTimeout == 0, "C05.stall.no-read-after-the-deadline-fired")
+	// only packets that were complete before the stall may have been dispatched
+	complete := 0
+	if conn.cut >= 12 {
+		complete = 1
+	}
+	if conn.cut >= 24 {
+		complete = 2
+	}
+	vpAssert(len(w.invokes) <= complete, "C05.stall.no-packet-from-a-broken-frame")
+	vpReach("C05.stall.end")
+}
